@@ -589,8 +589,8 @@ impl Ctx16 {
                     return;
                 }
                 for (l, s) in &self.inmem {
-                    if !evalx::same_set(&m[l], s) {
-                        rep.violate("reload_set_differs", format!("{how}: label {l}: reloaded {} vs written {} elements", m[l].approx_cardinality(), s.approx_cardinality()));
+                    if !same_serialised(&m[l], s) {
+                        rep.violate("reload_set_differs", format!("{how}: label {l}: reloaded BDD of {} nodes differs from the written one ({} nodes)", m[l].as_bdd().size(), s.as_bdd().size()));
                         return;
                     }
                 }
@@ -622,6 +622,51 @@ impl Ctx16 {
         (r, counters_fired(&before, &after))
     }
 
+    /// Load in a child process (memory-limited): a damaged archive may make a reader allocate
+    /// according to a corrupted size field or crash; that must not take the worker down.
+    fn load_in_child(&self, plan: &str, hash_seed: u64, sandbox: &str) -> Outcome<HashMap<String, Gcv>> {
+        let spec = json!({"model": self.model_text, "k": self.k, "path": self.path});
+        let spec_path = format!("{sandbox}/load-spec.json");
+        if std::fs::write(&spec_path, spec.to_string()).is_err() {
+            return Outcome::Err("cannot write spec".to_string());
+        }
+        let exe = match std::env::current_exe() {
+            Ok(e) => e,
+            Err(e) => return Outcome::Err(e.to_string()),
+        };
+        let out = std::process::Command::new(exe)
+            .arg("load-child")
+            .arg(&spec_path)
+            .env("VERIF_RAND", hash_seed.to_string())
+            .env("VERIF_CLOCK", crate::CLOCK_SCRIPT)
+            .env("VERIF_IO_PREFIX", &self.io_dir)
+            .env("VERIF_IO_PLAN", plan)
+            .stderr(std::process::Stdio::null())
+            .output();
+        let out = match out {
+            Ok(o) => o,
+            Err(e) => return Outcome::Err(e.to_string()),
+        };
+        match out.status.code() {
+            Some(0) => {
+                let v: Value = match serde_json::from_slice(&out.stdout) {
+                    Ok(v) => v,
+                    Err(e) => return Outcome::Panic(format!("child output unreadable: {e}")),
+                };
+                let g2 = get_extended_symbolic_graph(&self.bn, self.k).expect("graph");
+                let mut m = HashMap::new();
+                if let Some(o) = v.as_object() {
+                    for (l, s) in o {
+                        m.insert(l.clone(), GraphColoredVertices::new(biodivine_lib_bdd::Bdd::from_string(s.as_str().unwrap_or("")), g2.symbolic_context()));
+                    }
+                }
+                Outcome::Ok(m)
+            }
+            Some(3) => Outcome::Err(String::from_utf8_lossy(&out.stdout).trim().to_string()),
+            other => Outcome::Panic(format!("reader process died: exit {other:?}")),
+        }
+    }
+
     /// Oracle 3 for a Load result. `pristine`: the archive is acknowledged and undamaged and no
     /// fault fired. `names_trusted`: entry names cannot have been altered (no bit flips).
     fn judge_load(&self, r: &Outcome<HashMap<String, Gcv>>, pristine: bool, names_trusted: bool, rep: &mut Report, how: &str) -> bool {
@@ -630,8 +675,8 @@ impl Ctx16 {
                 for (l, s) in m {
                     match self.inmem.get(l) {
                         Some(w) => {
-                            if !evalx::same_set(s, w) {
-                                rep.violate("reload_returned_wrong_data", format!("{how}: label {l}: returned {} vs written {} elements", s.approx_cardinality(), w.approx_cardinality()));
+                            if !same_serialised(s, w) {
+                                rep.violate("reload_returned_wrong_data", format!("{how}: label {l}: returned BDD of {} nodes differs from the written one ({} nodes)", s.as_bdd().size(), w.as_bdd().size()));
                                 return false;
                             }
                         }
@@ -657,6 +702,13 @@ impl Ctx16 {
             }
         }
     }
+}
+
+/// A reloaded set is the written set iff its serialisation is the serialisation that was written.
+/// (Comparing the strings rather than operating on the BDDs: what a reader returns for a damaged
+/// archive need not even be a well-formed BDD, and BDD operations on it may not terminate.)
+fn same_serialised(a: &Gcv, b: &Gcv) -> bool {
+    a.as_bdd().to_string() == b.as_bdd().to_string()
 }
 
 fn pinned(sc: &C16, ops: Vec<Op>) -> Value {
@@ -833,12 +885,12 @@ pub fn check(world: &World, sc: &C16, sandbox: &str) -> Report {
                 rep.event(format!("flip {bit}"));
             }
             Op::Load { plan, hash_seed } => {
-                let (r, fired) = cx.load(plan, *hash_seed);
+                let (r, fired) = if disk == Disk::Good || disk == Disk::Absent { cx.load(plan, *hash_seed) } else { (cx.load_in_child(plan, *hash_seed, sandbox), Vec::new()) };
                 rep.event(format!(
                     "load [{plan}] {} fired={fired:?}",
                     match &r {
                         Outcome::Ok(m) => {
-                            let mut v: Vec<String> = m.iter().map(|(l, s)| format!("{l}={}", evalx::set_sig(s))).collect();
+                            let mut v: Vec<String> = m.iter().map(|(l, s)| format!("{l}={}", evalx::raw_sig(s))).collect();
                             v.sort();
                             v.join(",")
                         }
@@ -925,7 +977,7 @@ pub fn check(world: &World, sc: &C16, sandbox: &str) -> Report {
                         match code {
                             Some(137) => {
                                 rep.probe("fault_kill", 1);
-                                let (r, _) = cx.load("", 6);
+                                let r = cx.load_in_child("", 6, sandbox);
                                 rep.probe("loads_of_suspect_archive", 1);
                                 cx.judge_load(&r, false, true, &mut rep, &format!("op {oi} sweep: Load after crash at {plan}"));
                             }
@@ -958,7 +1010,7 @@ pub fn check(world: &World, sc: &C16, sandbox: &str) -> Report {
                             } else {
                                 rep.probe("saves_failed_under_fault", 1);
                                 // whatever is on disk must not be returned as wrong data
-                                let (lr, _) = cx.load("", 6);
+                                let lr = cx.load_in_child("", 6, sandbox);
                                 rep.probe("loads_of_suspect_archive", 1);
                                 cx.judge_load(&lr, false, true, &mut rep, &format!("{how} then Load"));
                             }
@@ -1029,7 +1081,7 @@ pub fn check(world: &World, sc: &C16, sandbox: &str) -> Report {
                     let mut count = 0;
                     for keep in (0..n).step_by(*stride as usize) {
                         let _ = std::fs::write(&cx.path, &good[..keep as usize]);
-                        let (r, _) = cx.load("", 6);
+                        let r = cx.load_in_child("", 6, sandbox);
                         count += 1;
                         if matches!(r, Outcome::Panic(_)) {
                             rep.probe("load_panics_on_damaged_archive", 1);
@@ -1052,7 +1104,7 @@ pub fn check(world: &World, sc: &C16, sandbox: &str) -> Report {
                         let mut b = good.clone();
                         b[(bit / 8) as usize] ^= 1 << (bit % 8);
                         let _ = std::fs::write(&cx.path, &b);
-                        let (r, _) = cx.load("", 6);
+                        let r = cx.load_in_child("", 6, sandbox);
                         count += 1;
                         if matches!(r, Outcome::Panic(_)) {
                             rep.probe("load_panics_on_damaged_archive", 1);
@@ -1139,6 +1191,42 @@ pub fn save_child_main(spec_path: &str) -> i32 {
     match build_result_archive(m, v["path"].as_str().unwrap_or(""), v["model"].as_str().unwrap_or(""), formulae) {
         Ok(()) => 0,
         Err(_) => 3,
+    }
+}
+
+/// Entry point of the reader child (`hctl-sim load-child <spec>`): address space limited, prints
+/// {label: BDD string} on success (exit 0) or the error text (exit 3).
+pub fn load_child_main(spec_path: &str) -> i32 {
+    unsafe {
+        let lim = libc::rlimit { rlim_cur: 3 << 30, rlim_max: 3 << 30 };
+        libc::setrlimit(libc::RLIMIT_AS, &lim);
+    }
+    let text = match std::fs::read_to_string(spec_path) {
+        Ok(t) => t,
+        Err(_) => return 2,
+    };
+    let v: Value = match serde_json::from_str(&text) {
+        Ok(v) => v,
+        Err(_) => return 2,
+    };
+    let bn = match BooleanNetwork::try_from(v["model"].as_str().unwrap_or("")) {
+        Ok(b) => b,
+        Err(_) => return 2,
+    };
+    let g = match get_extended_symbolic_graph(&bn, v["k"].as_u64().unwrap_or(0) as u16) {
+        Ok(g) => g,
+        Err(_) => return 2,
+    };
+    match load_bdd_bundle(v["path"].as_str().unwrap_or(""), g.symbolic_context()) {
+        Ok(m) => {
+            let o: BTreeMap<String, String> = m.iter().map(|(l, s)| (l.clone(), s.as_bdd().to_string())).collect();
+            println!("{}", serde_json::to_string(&o).unwrap_or_default());
+            0
+        }
+        Err(e) => {
+            println!("{e}");
+            3
+        }
     }
 }
 
